@@ -29,6 +29,16 @@ Theorem C13_error_token_true_line :
     exists a b, src = a ++ tspell t ++ b /\ perr_line e = 1 + count_nl a.
 Proof. exact parse_error_token_line. Qed.
 
+(** an error "at end of input" names the true line of the last byte of the last non-comment token (1 if none) *)
+Theorem C13_error_eof_line :
+  forall prof src e n, byte_len src < u32_limit -> parse prof src = ParseErr e -> pe_loc e = PLLine n ->
+    exists pts, lex prof src = Ok pts /\
+      match rev (drop_comments pts) with
+      | [] => n = 1
+      | pt :: _ => n = pt_line pt /\ In pt pts /\ ptok_in src pt
+      end.
+Proof. exact parse_error_eof_line. Qed.
+
 (** nothing is silently dropped: a program is returned only from a state with no tokens left *)
 Theorem C13_accepted_consumes_all :
   forall prof buf fuel s acc p, parse_blocks prof buf fuel s acc = Ok p ->
